@@ -20,7 +20,7 @@ def run(cmd, **kw):
     return subprocess.run(cmd, capture_output=True, text=True, **kw)
 try:
     run(["git", "-C", "/repo", "worktree", "add", "-q", "--detach", tree, "HEAD"])
-    env = dict(os.environ, PYTHONPATH=tree, PYTHONWARNINGS="ignore", PYTHONIOENCODING="utf-8", LC_ALL="C.UTF-8")
+    env = dict(os.environ, PYTHONPATH=tree, PYTHONWARNINGS="ignore", PYTHONIOENCODING="utf-8", LC_ALL="C.UTF-8", PYTHONUTF8="1")
     clean = run([PY, os.path.join(d, "demo.py")], cwd="/tmp", env=env, timeout=900)
     ap = run(["git", "-C", tree, "apply", os.path.join(d, "patch.diff")])
     if ap.returncode:
